@@ -7,7 +7,7 @@
    failing ones included: the two sides then report the same failure).  [of_list l] is a fully
    evaluated list seen as a stream, [collect] is List.Eval/ToSlice. *)
 From P2 Require Import Base.Prelude Sem.Num Sem.Syntax Sem.Ops Sem.Lib Lib.Builtins Lib.ListLib
-  Lib.BuiltinsProofs Lib.GroupProofs Lib.StringProofs Lib.MapProofs Lib.MovingProofs Lib.PipelineProofs Run.C07Run Generated.ValueMethods.
+  Lib.NumSpec Lib.NumLibProofs Lib.MergeSortedProofs Lib.BuiltinsProofs Lib.GroupProofs Lib.StringProofs Lib.MapProofs Lib.MovingProofs Lib.PipelineProofs Run.C07Run Generated.ValueMethods.
 From Coq Require Import Permutation Sorted.
 Local Open Scope Z_scope.
 
@@ -346,6 +346,154 @@ Theorem C07_multiUse_spec : forall l fs, fs <> [] ->
   bind (run_list (of_list l) M_multiUse [AFM fs]) force = spec_list l M_multiUse [AFM fs].
 Proof. exact multiUse_spec. Qed.
 
+(* "parse": string.toInt (strconv.Atoi).  A text is accepted exactly when it is a decimal integer numeral
+   [+-] digit+ whose positional value lies in int64, and the answer is that value; every other text is
+   an error (never a panic, never another value); the text of an int (string(n), n.string()) parses
+   back to n *)
+Theorem C07_toInt_spec :
+  (* toInt_accepts_exactly_numerals_in_range / toInt_rejects / toInt_total *)
+  (forall s,
+     (forall v, str_to_int s = Ok v <-> exists z, int_numeral s z /\ in_int64 z = true /\ v = VInt z) /\
+     (str_to_int s = Err None <-> forall z, int_numeral s z -> in_int64 z = false) /\
+     ((exists z, str_to_int s = Ok (VInt z)) \/ str_to_int s = Err None)) /\
+  (* int_numeral_unique *)
+  (forall s z1 z2, int_numeral s z1 -> int_numeral s z2 -> z1 = z2) /\
+  (* int_to_str_numeral *)
+  (forall n, int_numeral (int_to_str n) n) /\
+  (* toInt_roundtrip *)
+  (forall n, in_int64 n = true -> str_to_int (int_to_str n) = Ok (VInt n)).
+Proof. exact (conj toInt_spec (conj int_numeral_unique (conj int_to_str_numeral toInt_roundtrip))). Qed.
+
+(* string.toFloat (strconv.ParseFloat) on the exactly representable subset: whenever the model answers a
+   value, the text is a decimal floating-point numeral [+-] digits [. digits] [(e|E) [+-] digits] and the
+   float IS the numeral's value (-1)^neg * mant * 10^k as a rational number (a zero keeps its sign).
+   Texts whose value is no binary64 number (rounding), underscores, hexadecimal floats, inf and nan are
+   outside the model (Unsup) and compared with math/big in the run only *)
+Theorem C07_toFloat_exact : forall s v, str_to_float s = Ok v ->
+  exists neg mant k x, float_numeral s neg mant k /\ v = VFloat x /\ float_denotes x neg mant k.
+Proof. exact toFloat_sound. Qed.
+
+(* toFloat, the syntax side: every decimal floating-point numeral is read with exactly its sign, mantissa
+   and exponent (the answer is then decided by the value alone: float_of_decimal); a text has at most one
+   reading; an error means the text is no decimal numeral, or its value is 2^1024 or more *)
+Theorem C07_toFloat_syntax :
+  (* toFloat_numeral_read *)
+  (forall s neg mant k, float_numeral s neg mant k ->
+     existsb float_special_char s = false -> str_to_float s = float_of_decimal neg mant k) /\
+  (* float_numeral_unique *)
+  (forall s n1 m1 k1 n2 m2 k2,
+     float_numeral s n1 m1 k1 -> float_numeral s n2 m2 k2 -> n1 = n2 /\ m1 = m2 /\ k1 = k2) /\
+  (* toFloat_reject *)
+  (forall s, str_to_float s = Err None ->
+     (forall neg mant k, ~ float_numeral s neg mant k) \/
+     (exists neg mant k, float_numeral s neg mant k /\ 0 <= k /\ two1024 <= mant * 10 ^ k)).
+Proof. exact (conj toFloat_numeral_read (conj float_numeral_unique toFloat_reject)). Qed.
+
+(* numeric static functions on ints compute the mathematical function, the int64 wrap-around made
+   explicit: abs (abs(minInt) = minInt, negative!), sign = sgn, sqr = z*z modulo 2^64, binAnd / binOr
+   bit by bit on two's complement, isInt / isFloat, float(int) exact, wrong argument kinds are errors *)
+Theorem C07_numeric_statics :
+  (* static_abs_int *)
+  (forall z, in_int64 z = true ->
+     (z <> - two63 -> run_static n_abs [VInt z] = Ok (VInt (Z.abs z))) /\
+     (z = - two63 -> run_static n_abs [VInt z] = Ok (VInt (- two63)))) /\
+  (* static_sign_int *)
+  (forall z, run_static n_sign [VInt z] = Ok (VInt (Z.sgn z))) /\
+  (* static_sqr_int *)
+  (forall z,
+     run_static n_sqr [VInt z] = Ok (VInt (wrap64 (z * z))) /\
+     in_int64 (wrap64 (z * z)) = true /\ (wrap64 (z * z) - z * z) mod two64 = 0 /\
+     (in_int64 (z * z) = true -> run_static n_sqr [VInt z] = Ok (VInt (z * z)))) /\
+  (* static_bin_int *)
+  (forall a b,
+     (exists r, run_static n_binAnd [VInt a; VInt b] = Ok (VInt r) /\
+                forall i, 0 <= i -> Z.testbit r i = Z.testbit a i && Z.testbit b i) /\
+     (exists r, run_static n_binOr [VInt a; VInt b] = Ok (VInt r) /\
+                forall i, 0 <= i -> Z.testbit r i = Z.testbit a i || Z.testbit b i)) /\
+  (* static_is_type *)
+  (forall v, (forall t, v <> VErrText t) ->
+     run_static n_isInt [v] = Ok (VBool (match v with VInt _ => true | _ => false end)) /\
+     run_static n_isFloat [v] = Ok (VBool (match v with VFloat _ => true | _ => false end))) /\
+  (* static_float_of_int *)
+  (forall z v, run_static n_float [VInt z] = Ok v ->
+     exists m e, v = VFloat (FFin m e) /\ 0 <= e /\ m * 2 ^ e = z) /\
+  (* static_numeric_misuse *)
+  (forall f v, In f [n_abs; n_sign; n_sqr; n_int; n_float] ->
+     match v with VInt _ | VFloat _ | VErrText _ => False | _ => True end ->
+     run_static f [v] = Err None).
+Proof. exact (conj static_abs_int (conj static_sign_int (conj static_sqr_int (conj static_bin_int (conj static_is_type (conj static_float_of_int static_numeric_misuse)))))). Qed.
+
+(* min / max with any number of arguments = the fold of the language's < (C14) over the arguments, the
+   first minimal / maximal argument wins; on ints that is Z.min / Z.max; an argument that cannot be
+   compared with the candidate fails the call *)
+Theorem C07_static_min_max :
+  (* static_min_max_fold *)
+  (forall m l,
+     run_static n_min (m :: l) = fold_left less_step_min l (Ok m) /\
+     run_static n_max (m :: l) = fold_left less_step_max l (Ok m)) /\
+  (* static_min_max_ints *)
+  (forall z zs,
+     run_static n_min (map VInt (z :: zs)) = Ok (VInt (fold_left Z.min zs z)) /\
+     run_static n_max (map VInt (z :: zs)) = Ok (VInt (fold_left Z.max zs z))) /\
+  (* static_min_max_incomparable *)
+  (forall m v l, vless v m = Err None -> vless m v = Err None ->
+     run_static n_min (m :: v :: l) = Err None /\ run_static n_max (m :: v :: l) = Err None).
+Proof. exact (conj static_min_max_fold (conj static_min_max_ints static_min_max_incomparable)). Qed.
+
+(* round / floor / ceil / trunc on the dyadic number m * 2^e: integers are fixed points; otherwise floor
+   is the greatest integer not above, ceil the least not below, trunc goes towards zero, round to the
+   nearest integer with halves away from zero.  floor / ceil / trunc answer a FLOAT holding that integer
+   (a zero result of a negative argument is -0), round answers an INT *)
+Theorem C07_rounding_statics :
+  (* floor_ceil_trunc_round_spec *)
+  (forall m e,
+    (0 <= e -> floor_z m e = m * 2 ^ e /\ ceil_z m e = m * 2 ^ e /\ trunc_z m e = m * 2 ^ e /\ round_z m e = m * 2 ^ e) /\
+    (e < 0 -> let d := 2 ^ (- e) in
+       (floor_z m e * d <= m < (floor_z m e + 1) * d) /\
+       ((ceil_z m e - 1) * d < m <= ceil_z m e * d) /\
+       (trunc_z m e = if 0 <=? m then floor_z m e else ceil_z m e) /\
+       (2 * Z.abs (round_z m e) * d <= 2 * Z.abs m + d < 2 * (Z.abs (round_z m e) + 1) * d) /\
+       (0 <= m -> 0 <= round_z m e) /\ (m <= 0 -> round_z m e <= 0))) /\
+  (* static_floor_ceil_trunc_type *)
+  (forall how m e v, fl_int_valued how (FFin m e) = Ok v ->
+    (how m e = 0 /\ m < 0 /\ v = VFloat FNegZero) \/
+    exists m' e', v = VFloat (FFin m' e') /\ 0 <= e' /\ m' * 2 ^ e' = how m e) /\
+  (* static_round_type *)
+  (forall m e v, round_static [VFloat (FFin m e)] = Ok v ->
+    v = VInt (round_z m e) /\ in_int64 (round_z m e) = true).
+Proof. exact (conj floor_ceil_trunc_round_spec (conj static_floor_ceil_trunc_type static_round_type)). Qed.
+
+(* list.merge, the sentence of its description "If the function returns true if a<b holds and both lists
+   are ordered, also the new list is ordered": for every boolean relation ltb the callback decides, the
+   implementation model answers the standard merge - an interleaving (both lists keep their order), hence
+   a permutation of both - and if ltb never holds in both directions and no item of an input is less than
+   its left neighbour, the same is true of the answer.  On a tie the item of the OTHER list goes first *)
+Theorem C07_merge_sorted : forall (f : value -> value -> res value) ltb,
+  (forall a b, f a b = Ok (VBool (ltb a b))) ->
+  forall l1 l2,
+  collect (s_merge f (of_list l1) l2) = Ok (pmerge ltb l1 l2) /\
+  interleave l1 l2 (pmerge ltb l1 l2) /\
+  Permutation (l1 ++ l2) (pmerge ltb l1 l2) /\
+  ((forall a b, ltb a b = true -> ltb b a = false) ->
+   Sorted (not_before ltb) l1 -> Sorted (not_before ltb) l2 -> Sorted (not_before ltb) (pmerge ltb l1 l2)).
+Proof. exact merge_sorted. Qed.
+
+Theorem C07_merge_tie_takes_other : forall ltb a r1 b r2, ltb a b = false ->
+  pmerge ltb (a :: r1) (b :: r2) = b :: pmerge ltb (a :: r1) r2.
+Proof. exact merge_tie_takes_other. Qed.
+
+(* list.eval returns the list unchanged; list.replaceList(f) is f applied to the list, map.replaceMap(f) is f applied to the map *)
+Theorem C07_eval_replaceList :
+  (* list_eval_spec *)
+  (forall l, run_list (of_list l) M_eval [] = Ok (PV (VList l))) /\
+  (* replaceList_spec *)
+  (forall l body,
+     run_list (of_list l) M_replaceList [AF 1 body] = okV (ceval [VList l] body) /\
+     bind (run_list (of_list l) M_replaceList [AF 1 body]) force = spec_list l M_replaceList [AF 1 body]) /\
+  (* replaceMap_spec *)
+  (forall e body, run_map e M_replaceMap [AF 1 body] = okV (ceval [VMap e] body)).
+Proof. exact (conj list_eval_spec (conj replaceList_spec replaceMap_spec)). Qed.
+
 (* non-vacuity: a pipeline with a failing callback behind a truncating stage, and the repaired corners *)
 Example C07_nonvacuous_lazy :
   collect (s_top 1 (s_map (fun x => match x with VInt 1 => Ok x | _ => Err None end) (of_list [VInt 1; VInt 2])))
@@ -363,6 +511,32 @@ Proof. vm_compute. reflexivity. Qed.
 
 Example C07_nonvacuous_cut : str_cut [] 0 1 = [] /\ str_cut [104; 228; 98]%N 1 (-1) = [228; 98]%N.
 Proof. vm_compute. split; reflexivity. Qed.
+Example C07_nonvacuous_toInt :
+  str_to_int [45; 48; 52; 50]%N = Ok (VInt (-42)) /\ str_to_int [52; 50; 32]%N = Err None /\
+  str_to_int [57;50;50;51;51;55;50;48;51;54;56;53;52;55;55;53;56;48;56]%N = Err None.
+Proof. vm_compute. repeat split; reflexivity. Qed.
+
+Example C07_nonvacuous_toFloat :
+  str_to_float [45; 50; 46; 53; 101; 49]%N = Ok (VFloat (FFin (-25) 0)) /\
+  str_to_float [46; 49; 50; 53]%N = Ok (VFloat (FFin 1 (-3))) /\
+  str_to_float [49; 101]%N = Err None /\ str_to_float [48; 46; 49]%N = Unsup.
+Proof. vm_compute. repeat split; reflexivity. Qed.
+
+Example C07_nonvacuous_rounding :
+  round_static [VFloat (FFin (-5) (-1))] = Ok (VInt (-3)) /\
+  float_only_static ceil_z [VFloat (FFin (-1) (-1))] = Ok (VFloat FNegZero) /\
+  float_only_static floor_z [VFloat (FFin (-1) (-1))] = Ok (VFloat (FFin (-1) 0)).
+Proof. vm_compute. repeat split; reflexivity. Qed.
+Definition C07_int_less (a b : value) : bool := match a, b with VInt x, VInt y => x <? y | _, _ => false end.
+Example C07_nonvacuous_merge :
+  (forall a b, C07_int_less a b = true -> C07_int_less b a = false) /\
+  Sorted (not_before C07_int_less) [VInt 1; VInt 3] /\
+  pmerge C07_int_less [VInt 1; VInt 3] [VInt 2; VInt 3; VInt 4] = [VInt 1; VInt 2; VInt 3; VInt 3; VInt 4].
+Proof.
+  split; [|split; [repeat constructor|reflexivity]].
+  intros a b. destruct a, b; cbn; try discriminate. intros H. apply Z.ltb_lt in H. apply Z.ltb_ge. apply Z.lt_le_incl. exact H.
+Qed.
+
 Print Assumptions C07_methods_match.
 Print Assumptions C07_statics_match.
 Print Assumptions C07_methods_match_sound.
@@ -389,3 +563,12 @@ Print Assumptions C07_movingWindow_nondecreasing_partial.
 Print Assumptions C07_movingWindow_int_keys.
 Print Assumptions C07_movingWindow_any_order_refuted.
 Print Assumptions C07_multiUse_spec.
+Print Assumptions C07_toInt_spec.
+Print Assumptions C07_toFloat_exact.
+Print Assumptions C07_numeric_statics.
+Print Assumptions C07_static_min_max.
+Print Assumptions C07_rounding_statics.
+Print Assumptions C07_merge_sorted.
+Print Assumptions C07_merge_tie_takes_other.
+Print Assumptions C07_eval_replaceList.
+Print Assumptions C07_toFloat_syntax.
